@@ -126,7 +126,7 @@ class Path:
 STATS = {'sat_calls': 0, 'solver_s': 0.0}
 
 
-def sat(pc, timeout_ms=5000):
+def sat(pc, timeout_ms=800):
     """Feasibility pruning: unknown counts as feasible (sound for proving)."""
     s = z3.Solver(); s.set('timeout', timeout_ms); s.add(*pc)
     t = time.time(); r = s.check()
